@@ -3,7 +3,7 @@ import VrlProofs.Lemmas.TypeAssign
 import VrlProofs.Lemmas.TypeEffect
 import VrlProofs.Lemmas.TypeConst
 import VrlProofs.Lemmas.TypeBinop
-import VrlProofs.Lemmas.KindRemove
+import VrlProofs.Lemmas.KindRemoveField
 
 /-! Soundness of the type inference for one evaluation step (C01 a/d, C02 b, C12 c), as an
     invariant `Sound` proved by structural recursion over the mutual `Expr`/`Exprs`/`KExprs`.
@@ -1561,71 +1561,130 @@ theorem sound_obj (kvs : KExprs) (ihk : IHK kvs) : IH (.obj kvs) := by
       | ok x => exact absurd h (by simp [ObjSound])
       | _ => trivial
 
-/-! ### `del` of the whole event / metadata (the only removal C19 proves sound) -/
+/-! ### `del` on the event / metadata: the root, or one field of an exact object kind -/
 
-/-- the kind `Kind::remove` leaves at the root -/
-def emptiedKind (K : Kind) : Kind :=
-  let k0 := Kind.never
-  let k1 := if K.containsObject then k0.orObject Col.empty else k0
-  let k2 := if K.containsArray then k1.orArray Col.empty else k1
-  if K.containsPrimitive then k2.orNull else k2
+theorem value_remove_field (m : VMap) (f : Key) (c : Bool) :
+    ((Value.obj m).remove [.field f] c).2 = .obj (m.remove f) := by
+  simp only [Value.remove, Value.removeOpt]
+  cases hg : m.get f with
+  | none => simp [Value.removeOpt, VMap.remove_absent m f hg]
+  | some x => simp [Value.removeOpt]
 
-theorem deleteExt_root (T : TState) (m : Bool) (b : Bool) :
-    deleteExt T m [] b = T.setExt m (emptiedKind (T.extKind m)) := by
-  unfold deleteExt
-  rw [remove_root_eq]
-  rfl
+/-- `Kind::remove` at the paths `delPathOk` admits: it succeeds and what is left of a member belongs
+    to the kind left behind -/
+theorem remove_sound_ok (v : Value) (K : Kind) (p : Path) (c : Bool) (hok : delPathOk K p = true)
+    (hm : mem v K = true) (hs : v.Sorted = true) :
+    ∃ K' R, K.remove p c = .ok (K', R) ∧ mem (v.remove p c).2 K' = true := by
+  cases p with
+  | nil =>
+    refine ⟨_, _, remove_root_eq K c, ?_⟩
+    have : (v.remove [] c).2 = Value.emptied v := by simp [Value.remove, Value.removeOpt]
+    rw [this]
+    exact mem_emptied v K hm
+  | cons sg rest =>
+    cases sg with
+    | index i => simp [delPathOk] at hok
+    | field f =>
+      cases rest with
+      | cons _ _ => simp [delPathOk] at hok
+      | nil =>
+        simp only [delPathOk, Bool.and_eq_true, Bool.not_eq_true'] at hok
+        obtain ⟨⟨hobj, sK⟩, iK⟩ := hok
+        obtain ⟨m, rfl⟩ := memR_isObject hobj (memR_of_mem hm)
+        cases K with
+        | mk pr a o =>
+          cases o with
+          | none => simp [mem, Kind.hasObj] at hm
+          | some col =>
+            cases col with
+            | mk kn u =>
+              obtain ⟨_, so⟩ := kind_sortedK sK
+              obtain ⟨_, io⟩ := kind_infAny iK
+              have := remove_field_obj_sound m pr a kn u f c so io (by simpa [Value.Sorted] using hs) hm
+              refine ⟨_, _, this.1, ?_⟩
+              rw [value_remove_field]
+              exact this.2
 
-theorem targetRemove_root (s : St) (hf : s.faults = []) (m b : Bool) :
-    (s.targetRemove m [] b).1 = some (if m then s.metadata else s.event) ∧
-    (s.targetRemove m [] b).2.vars = s.vars ∧ (s.targetRemove m [] b).2.faults = s.faults ∧
-    (if m then (s.targetRemove m [] b).2.metadata = Value.emptied s.metadata ∧
-               (s.targetRemove m [] b).2.event = s.event
-     else (s.targetRemove m [] b).2.event = Value.emptied s.event ∧
-          (s.targetRemove m [] b).2.metadata = s.metadata) := by
+theorem targetRemove_eq (s : St) (hf : s.faults = []) (m : Bool) (p : Path) (b : Bool) :
+    (s.targetRemove m p b).1 = ((if m then s.metadata else s.event).remove p b).1 ∧
+    (s.targetRemove m p b).2.vars = s.vars ∧ (s.targetRemove m p b).2.faults = s.faults ∧
+    (if m then (s.targetRemove m p b).2.metadata = (s.metadata.remove p b).2 ∧
+               (s.targetRemove m p b).2.event = s.event
+     else (s.targetRemove m p b).2.event = (s.event.remove p b).2 ∧
+          (s.targetRemove m p b).2.metadata = s.metadata) := by
   unfold St.targetRemove St.tick
   simp only [hf, List.contains_nil, Bool.false_eq_true, if_false]
-  cases m <;> simp [Value.remove, Value.removeOpt, hf]
+  cases m <;> simp [hf]
 
-/-- the state after `del(.)` / `del(%)` against the type state `deleteExt` -/
-theorem conforms_delete_root {s : St} {T : TState} (hc : Conforms s T) (m b : Bool) :
-    Conforms (s.targetRemove m [] b).2 (T.setExt m (emptiedKind (T.extKind m))) := by
-  obtain ⟨_, hv, hfa, hrest⟩ := targetRemove_root s hc.faults m b
+/-- the state after `del` against the type state `deleteExt` -/
+theorem conforms_delete {s : St} {T : TState} (hc : Conforms s T) (m : Bool) (p : Path) (b : Bool)
+    (hok : delPathOk (T.extKind m) p = true) :
+    Conforms (s.targetRemove m p b).2 (deleteExt T m p b) := by
+  obtain ⟨_, hv, hfa, hrest⟩ := targetRemove_eq s hc.faults m p b
+  have hvars : ∀ n d, T.getVar n = some d → varOk (s.targetRemove m p b).2 n d := by
+    intro n d hd
+    obtain ⟨w, h1, h2⟩ := hc.vars n d hd
+    exact ⟨w, by simpa [St.getVar, hv] using h1, h2⟩
   cases m with
   | false =>
     simp only [Bool.false_eq_true, if_false] at hrest
-    refine ⟨by rw [hfa]; exact hc.faults, ?_, ?_, by rw [hrest.1]; exact C18.emptied_sorted _,
+    simp only [TState.extKind, Bool.false_eq_true, if_false] at hok
+    obtain ⟨K', R, hrem, hmem⟩ := remove_sound_ok s.event T.target p b hok hc.event hc.eventSorted
+    have : deleteExt T false p b = T.setExt false K' := by
+      simp [deleteExt, TState.extKind, hrem]
+    rw [this]
+    exact ⟨by rw [hfa]; exact hc.faults, hvars, by rw [hrest.1]; exact hmem,
+      by rw [hrest.1]; exact C18.remove_sorted _ _ _ hc.eventSorted,
       by rw [hrest.2]; exact hc.metadata, by rw [hrest.2]; exact hc.metadataSorted⟩
-    · intro n d hd
-      obtain ⟨w, h1, h2⟩ := hc.vars n d hd
-      exact ⟨w, by simpa [St.getVar, hv] using h1, h2⟩
-    · rw [hrest.1]; exact mem_emptied _ _ hc.event
   | true =>
     simp only [if_true] at hrest
-    refine ⟨by rw [hfa]; exact hc.faults, ?_, by rw [hrest.2]; exact hc.event,
-      by rw [hrest.2]; exact hc.eventSorted, ?_, by rw [hrest.1]; exact C18.emptied_sorted _⟩
-    · intro n d hd
-      obtain ⟨w, h1, h2⟩ := hc.vars n d hd
-      exact ⟨w, by simpa [St.getVar, hv] using h1, h2⟩
-    · rw [hrest.1]; exact mem_emptied _ _ hc.metadata
+    simp only [TState.extKind, if_true] at hok
+    obtain ⟨K', R, hrem, hmem⟩ := remove_sound_ok s.metadata T.metadata p b hok hc.metadata hc.metadataSorted
+    have : deleteExt T true p b = T.setExt true K' := by
+      simp [deleteExt, TState.extKind, hrem]
+    rw [this]
+    exact ⟨by rw [hfa]; exact hc.faults, hvars, by rw [hrest.2]; exact hc.event,
+      by rw [hrest.2]; exact hc.eventSorted, by rw [hrest.1]; exact hmem,
+      by rw [hrest.1]; exact C18.remove_sorted _ _ _ hc.metadataSorted⟩
 
-theorem conforms_delExternal_root {s' : St} {T : TState} (m : Bool) (compact : Option Bool)
-    (hk : AllNan (match compact with
-      | some _ => []
-      | none =>
-        chk .kindUnion (unionOk (deleteExt T m [] false).target (deleteExt T m [] true).target) ++
-        chk .kindUnion (unionOk (deleteExt T m [] false).metadata (deleteExt T m [] true).metadata)))
-    (hc : Conforms s' (T.setExt m (emptiedKind (T.extKind m)))) :
-    Conforms s' (delExternal T (some (m, [])) compact) := by
+theorem conforms_delExternal {s' : St} {T : TState} (m : Bool) (p : Path) (compact : Option Bool) (b : Bool)
+    (hb : ∀ c, compact = some c → b = c)
+    (hk : AllNan (delUnionChecks T m p compact))
+    (hc : Conforms s' (deleteExt T m p b)) :
+    Conforms s' (delExternal T (some (m, p)) compact) := by
   cases compact with
-  | some b => simp only [delExternal, deleteExt_root]; exact hc
+  | some c => have := hb c rfl; subst this; simpa [delExternal] using hc
   | none =>
-    simp only [delExternal, deleteExt_root] at hk ⊢
-    simp only [allNan_append] at hk
+    simp only [delExternal, TState.mergeExternal]
+    simp only [delUnionChecks, allNan_append] at hk
     rw [allNan_chk (by decide), allNan_chk (by decide)] at hk
-    refine ⟨hc.faults, hc.vars, ?_, hc.eventSorted, ?_, hc.metadataSorted⟩
-    · exact mem_union_left' hk.1 hc.event
-    · exact mem_union_left' hk.2 hc.metadata
+    have hloc : ∀ b', (deleteExt T m p b').locals = T.locals := by
+      intro b'
+      unfold deleteExt
+      split
+      · unfold TState.setExt; split <;> rfl
+      · rfl
+    cases b with
+    | false =>
+      exact ⟨hc.faults, hc.vars, mem_union_left' hk.1 hc.event, hc.eventSorted,
+        mem_union_left' hk.2 hc.metadata, hc.metadataSorted⟩
+    | true =>
+      refine ⟨hc.faults, ?_, mem_union_right' hk.1 hc.event, hc.eventSorted,
+        mem_union_right' hk.2 hc.metadata, hc.metadataSorted⟩
+      intro n d hd
+      apply hc.vars n d
+      simpa [TState.getVar, hloc] using hd
+
+/-- the value `del` returns is what the path held -/
+theorem del_result {s : St} {T : TState} (hc : Conforms s T) (m : Bool) (p : Path) (b : Bool)
+    (hat : atOk (T.extKind m) p = true) :
+    memR (((s.targetRemove m p b).1).getD .null) ((T.extKind m).atPath p) = true ∧
+    (((s.targetRemove m p b).1).getD .null).Sorted = true := by
+  obtain ⟨hr, _⟩ := targetRemove_eq s hc.faults m p b
+  rw [hr, C18.remove_returns_get]
+  cases m with
+  | false => exact memR_atPath (memR_of_mem hc.event) hc.eventSorted hat
+  | true => exact memR_atPath (memR_of_mem hc.metadata) hc.metadataSorted hat
 
 theorem sound_delExt (m : Bool) (p : Path) (hasC : Bool) (c : Expr) (ihc : IH c) : IH (.delExt m p hasC c) := by
   intro T s hk hc
@@ -1633,29 +1692,20 @@ theorem sound_delExt (m : Bool) (p : Path) (hasC : Bool) (c : Expr) (ihc : IH c)
   simp only [allNan_append, delExtChecks] at hk
   obtain ⟨hkc, ⟨hp, hat⟩, hun⟩ := hk
   rw [allNan_chk (by decide)] at hp hat
-  have hp' : p = [] := by cases p <;> simp_all
-  subst hp'
   rw [typeInfo, eval]
   cases hasC with
   | false =>
-    simp only [Bool.false_eq_true, if_false] at hun ⊢
-    obtain ⟨hr, _, _, _⟩ := targetRemove_root s hc.faults m false
-    have hconf := conforms_delExternal_root (T := T) m none hun (conforms_delete_root hc m false)
-    cases hq : s.targetRemove m [] false with
+    simp only [Bool.false_eq_true, if_false] at hun hp hat ⊢
+    have hres := del_result hc m p false hat
+    have hconf := conforms_delExternal (T := T) m p none false (fun c h => by cases h) hun
+      (conforms_delete hc m p false hp)
+    cases hq : s.targetRemove m p false with
     | mk r s1 =>
-      rw [hq] at hr hconf
-      simp only at hr
-      subst hr
-      simp only [Sound, Option.getD_some, TypeDef.maybeFallible, TypeDef.ofKind, Kind.atPath]
-      refine ⟨?_, ?_, hconf⟩
-      · cases m
-        · exact memR_of_mem hc.event
-        · exact memR_of_mem hc.metadata
-      · cases m
-        · exact hc.eventSorted
-        · exact hc.metadataSorted
+      rw [hq] at hres hconf
+      simp only [Sound, TypeDef.maybeFallible, TypeDef.ofKind]
+      exact ⟨hres.1, hres.2, hconf⟩
   | true =>
-    simp only [if_true, allNan_append] at hkc hun ⊢
+    simp only [if_true, allNan_append] at hkc hun hp hat ⊢
     rw [allNan_chk (by decide)] at hkc
     simp only [Bool.and_eq_true, Bool.not_eq_true'] at hkc
     have h1 := ihc T s hkc.1 hc
@@ -1668,22 +1718,24 @@ theorem sound_delExt (m : Bool) (p : Path) (hasC : Bool) (c : Expr) (ihc : IH c)
         cases v with
         | bool b =>
           simp only
-          obtain ⟨hr, _, _, _⟩ := targetRemove_root s1 h1.2.2.faults m b
-          have hconf := conforms_delExternal_root (T := (typeInfo c T).2) m
-            ((constOf c (typeInfo c T).2).bind asBoolean) hun (conforms_delete_root h1.2.2 m b)
-          cases hq2 : s1.targetRemove m [] b with
+          -- a constant `compact` is the run-time flag
+          have hb : ∀ c', (constOf c (typeInfo c T).2).bind asBoolean = some c' → b = c' := by
+            intro c' hc'
+            cases hcv : constOf c (typeInfo c T).2 with
+            | none => rw [hcv] at hc'; cases hc'
+            | some cv =>
+              have := asg_const hc hq cv hcv
+              subst this
+              rw [hcv] at hc'
+              simpa [asBoolean] using hc'
+          have hres := del_result h1.2.2 m p b hat
+          have hconf := conforms_delExternal (T := (typeInfo c T).2) m p
+            ((constOf c (typeInfo c T).2).bind asBoolean) b hb hun (conforms_delete h1.2.2 m p b hp)
+          cases hq2 : s1.targetRemove m p b with
           | mk r s2 =>
-            rw [hq2] at hr hconf
-            simp only at hr
-            subst hr
-            simp only [Sound, Option.getD_some, TypeDef.maybeFallible, TypeDef.ofKind, Kind.atPath]
-            refine ⟨?_, ?_, hconf⟩
-            · cases m
-              · exact memR_of_mem h1.2.2.event
-              · exact memR_of_mem h1.2.2.metadata
-            · cases m
-              · exact h1.2.2.eventSorted
-              · exact h1.2.2.metadataSorted
+            rw [hq2] at hres hconf
+            simp only [Sound, TypeDef.maybeFallible, TypeDef.ofKind]
+            exact ⟨hres.1, hres.2, hconf⟩
         | _ =>
           -- a `compact` that is not a boolean: typed fallible
           simp only [Sound, TypeDef.maybeFallible]
